@@ -325,6 +325,9 @@ func (c *cmpSUT) apply(f []string) (out string) {
 			out = "crash"
 		}
 	}()
+	if out2, ok := c.apply2(f); ok {
+		return out2
+	}
 	switch f[0] {
 	case "case":
 		return "ok"
@@ -586,6 +589,9 @@ func genNM(r *wire.Rng, pool []string, max int) []string {
 }
 
 func genCmpOp(r *wire.Rng) []string {
+	if r.Chance(2, 5) {
+		return genCmpOp2(r)
+	}
 	switch r.Intn(12) {
 	case 11:
 		nt := 1 + r.Intn(3)
@@ -745,6 +751,31 @@ func oracleOp(c *cmpSUT, r *wire.Rng, f []string) string {
 		return f[0] + ":crash"
 	}
 	switch f[0] {
+	case "sidx", "ef", "te":
+		for k := 0; k < 6; k++ {
+			g := append([]string{f[0], permuteTok(r, f[1])}, f[2:]...)
+			if got := c.apply(g); got != base {
+				return f[0] + ":perm"
+			}
+		}
+	case "alias":
+		for k := 0; k < 6; k++ {
+			if got := c.apply([]string{"alias", f[1], permuteTok(r, f[2])}); got != base {
+				return "alias:perm"
+			}
+		}
+	case "pickf":
+		for k := 0; k < 8; k++ {
+			if got := c.apply([]string{"pickf", permuteTok(r, f[1]), f[2]}); got != base {
+				return "pickf:perm"
+			}
+		}
+	case "vh", "inb", "lst":
+		for k := 0; k < 3; k++ {
+			if got := c.apply([]string{f[0], permuteTok(r, f[1])}); got != base {
+				return f[0] + ":perm"
+			}
+		}
 	case "wl":
 		unique := distinctKeys(f[1], func(p []string) string { return p[1] + ";" + p[2] })
 		for k := 0; k < 6 && unique; k++ {
